@@ -13,7 +13,7 @@ FINDINGS_FILE = os.path.join(VERIF, "known-findings.json")
 
 
 class Violation:
-    def __init__(self, key, mode, title, case, expected=None, observed=None, features=None):
+    def __init__(self, key, mode, title, case, expected=None, observed=None, features=None, items=None):
         self.key = key
         self.mode = mode
         self.title = title
@@ -21,6 +21,7 @@ class Violation:
         self.expected = expected
         self.observed = observed
         self.features = features or {}
+        self.items = items  # the specific failing inputs of this case (instances, probe strings, ...), for known-finding matching
 
     def ident(self):
         return "%s:%s" % (self.key, self.mode)
@@ -48,6 +49,43 @@ def load_findings():
         return json.load(f).get("findings", [])
 
 
+def _subobjects(x):
+    if isinstance(x, dict):
+        yield x
+        for y in x.values():
+            yield from _subobjects(y)
+    elif isinstance(x, list):
+        for y in x:
+            yield from _subobjects(y)
+
+
+def _pred(p, item):
+    """tiny predicate language over one failing input (known findings name the specific inputs that fail)"""
+    if "any_subobject" in p:
+        q = p["any_subobject"]
+        for d in _subobjects(item):
+            if all(k in d and d[k] == val for k, val in q.get("eq", {}).items()) and all(k in d for k in q.get("has", [])) \
+                    and not any(k in d for k in q.get("lacks", [])):
+                return True
+        return False
+    if "any_value" in p:
+        want = p["any_value"]
+        def walk(x):
+            if x == want and type(x) == type(want):
+                return True
+            if isinstance(x, dict):
+                return any(walk(y) for y in x.values())
+            if isinstance(x, list):
+                return any(walk(y) for y in x)
+            return False
+        return walk(item)
+    if "equals" in p:
+        return item == p["equals"]
+    if "in" in p:
+        return item in p["in"]
+    return False
+
+
 def finding_matches(f, prop, v):
     if f.get("property") != prop:
         return False
@@ -55,6 +93,10 @@ def finding_matches(f, prop, v):
     if v.mode not in modes:
         return False
     m = f.get("match", {})
+    if "all_items" in m:
+        # every failing input of the case must be one the finding names; anything else stays a VIOLATION
+        if not v.items or not all(_pred(m["all_items"], it) for it in v.items):
+            return False
     if "keys" in m and v.key in m["keys"]:
         return True
     feats = m.get("features")
